@@ -301,6 +301,11 @@ pub trait Prop: Sync + Send + 'static {
     fn extra_evidence(&self, _tier: Tier) -> Value {
         json!({})
     }
+    /// Number of OS processes to split the generated part over (C15: its hooks are process-global, so
+    /// parallelism comes from processes, not shards).
+    fn processes(&self) -> usize {
+        1
+    }
     /// Optional extra campaign run after the generated part (e.g. a libFuzzer run in the thorough
     /// tier). Returns extra evidence keys and possibly a confirmed failing case.
     fn post(&self, _tier: Tier, _seed: u64) -> (Value, Option<(Self::Case, Failure)>) {
@@ -429,8 +434,218 @@ fn known_match<'a>(known: &'a [KnownFinding], f: &Failure) -> Option<&'a KnownFi
 }
 
 /// Runs a property: exit code 0 held, 1 violation (VIOLATION line printed), 2 inconclusive.
+fn child_spec() -> Option<(usize, usize)> {
+    let v = std::env::var("VERIF_CHILD").ok()?;
+    let (k, n) = v.split_once('/')?;
+    Some((k.parse().ok()?, n.parse().ok()?))
+}
+
+/// Parent side of process-level sharding: runs N copies of this binary, merges their evidence.
+fn run_parent<P: Prop>(p: &P, opts: &RunOpts, n: usize) -> i32 {
+    let t0 = Instant::now();
+    let exe = match std::env::current_exe() {
+        Ok(e) => e,
+        Err(e) => {
+            eprintln!("INFRA: {}", e);
+            return 2;
+        }
+    };
+    let base = out_dir().join("work").join("children").join(p.id());
+    let _ = std::fs::remove_dir_all(&base);
+    let mut kids = Vec::new();
+    for k in 0..n {
+        let dir = base.join(format!("{}", k));
+        let _ = std::fs::create_dir_all(&dir);
+        let c = std::process::Command::new(&exe)
+            .arg(p.id())
+            .arg(opts.tier.name())
+            .env("VERIF_CHILD", format!("{}/{}", k, n))
+            .env("VERIF_OUT", &dir)
+            .env("VERIF_SEED", format!("{}", opts.seed))
+            .stdout(std::process::Stdio::piped())
+            .stderr(std::process::Stdio::inherit())
+            .spawn();
+        match c {
+            Ok(c) => kids.push((k, dir, c)),
+            Err(e) => {
+                eprintln!("INFRA: cannot spawn child: {}", e);
+                return 2;
+            }
+        }
+    }
+    let mut codes = Vec::new();
+    let mut outputs = Vec::new();
+    let mut evs = Vec::new();
+    for (k, dir, c) in kids {
+        let o = c.wait_with_output();
+        let (code, text) = match o {
+            Ok(o) => (o.status.code().unwrap_or(2), String::from_utf8_lossy(&o.stdout).to_string()),
+            Err(_) => (2, String::new()),
+        };
+        codes.push(code);
+        outputs.push(text);
+        let ev: Option<Value> = std::fs::read_to_string(dir.join("evidence").join(format!("{}.json", p.id()))).ok().and_then(|s| serde_json::from_str(&s).ok());
+        evs.push((k, dir, ev));
+    }
+    // merge
+    let mut evaluations = 0u64;
+    let mut cases = 0u64;
+    let mut violations = 0i64;
+    let mut classes: BTreeMap<String, u64> = BTreeMap::new();
+    let mut skipped: BTreeMap<String, u64> = BTreeMap::new();
+    let mut known_hits: BTreeMap<String, u64> = BTreeMap::new();
+    let mut maxima: BTreeMap<String, f64> = BTreeMap::new();
+    let mut hashes: HashSet<u64> = HashSet::new();
+    let mut samples: Vec<Value> = Vec::new();
+    let mut regress = 0u64;
+    let mut violation: Option<Value> = None;
+    for (_, _, ev) in evs.iter() {
+        let Some(ev) = ev else { continue };
+        let c = &ev["coverage"];
+        evaluations += c["evaluations"].as_u64().unwrap_or(0);
+        cases += c["proptest_cases"].as_u64().unwrap_or(0);
+        violations += ev["violations"].as_i64().unwrap_or(0);
+        regress += c["regression_cases_replayed"].as_u64().unwrap_or(0);
+        for (name, dst) in [("classes", &mut classes), ("skipped", &mut skipped), ("known_finding_hits", &mut known_hits)] {
+            if let Some(o) = c[name].as_object() {
+                for (k, v) in o {
+                    *dst.entry(k.clone()).or_insert(0) += v.as_u64().unwrap_or(0);
+                }
+            }
+        }
+        if let Some(o) = c["observed_max"].as_object() {
+            for (k, v) in o {
+                let x = v.as_f64().unwrap_or(f64::NEG_INFINITY);
+                let e = maxima.entry(k.clone()).or_insert(f64::NEG_INFINITY);
+                if x > *e {
+                    *e = x;
+                }
+            }
+        }
+        if let Some(a) = c["nt_hashes"].as_array() {
+            hashes.extend(a.iter().filter_map(|x| x.as_u64()));
+        }
+        if let Some(a) = c["samples"].as_array() {
+            for x in a.iter().take(2) {
+                if samples.len() < 8 {
+                    samples.push(x.clone());
+                }
+            }
+        }
+        if violation.is_none() && !c["violation"].is_null() {
+            violation = Some(c["violation"].clone());
+        }
+    }
+    let wall = t0.elapsed().as_secs_f64();
+    // a child's violation: copy its replay into the parent's replay directory
+    let mut replay_path: Option<PathBuf> = None;
+    if let Some(v) = &violation {
+        if let Some(src) = v["replay"].as_str() {
+            let dir = out_dir().join("replays").join(p.id());
+            let _ = std::fs::create_dir_all(&dir);
+            let dst = dir.join(std::path::Path::new(src).file_name().unwrap_or_default());
+            if std::fs::copy(src, &dst).is_ok() {
+                replay_path = Some(dst);
+            }
+        }
+    }
+    let mut coverage = json!({
+        "evaluations": evaluations,
+        "distinct_nontrivial": hashes.len(),
+        "rule": p.rule(),
+        "samples": if samples.is_empty() { vec![json!({"note": "no sample recorded"})] } else { samples },
+        "classes": classes,
+        "skipped": skipped,
+        "observed_max": maxima,
+        "tolerances": p.tolerances(),
+        "proptest_cases": cases,
+        "shards": 1,
+        "processes": n,
+        "exhaustive": p.exhaustive(opts.tier),
+        "known_finding_hits": known_hits,
+        "regression_cases_replayed": regress,
+        "child_exit_codes": codes,
+    });
+    if let Some(v) = &violation {
+        let mut v = v.clone();
+        if let Some(rp) = &replay_path {
+            v["replay"] = json!(rp.display().to_string());
+        }
+        coverage["violation"] = v;
+    }
+    let ev = json!({
+        "property_id": p.id(),
+        "tier": opts.tier.name(),
+        "seed": opts.seed,
+        "level": "exploration",
+        "coverage": coverage,
+        "assumptions": p.assumptions(),
+        "wall_s": (wall * 1000.0).round() / 1000.0,
+        "violations": violations,
+    });
+    let evdir = out_dir().join("evidence");
+    let _ = std::fs::create_dir_all(&evdir);
+    std::fs::write(evdir.join(format!("{}.json", p.id())), serde_json::to_string_pretty(&ev).unwrap() + "\n").unwrap();
+    let _ = std::fs::remove_dir_all(&base);
+    for k in load_known(p.id()).iter() {
+        println!("KNOWN-FINDING: property={} {} (signature {})", p.id(), k.what, k.signature);
+    }
+    println!(
+        "{} {} seed={} evaluations={} distinct_nontrivial={} wall={:.1}s violations={} (processes={})",
+        p.id(),
+        opts.tier.name(),
+        opts.seed,
+        evaluations,
+        hashes.len(),
+        wall,
+        violations,
+        n
+    );
+    if codes.iter().any(|c| *c == 1) {
+        // echo the first failing child's report, with the replay path rewritten
+        for (i, o) in outputs.iter().enumerate() {
+            if codes[i] == 1 {
+                for l in o.lines() {
+                    if l.starts_with("  ") {
+                        println!("{}", l);
+                    }
+                }
+                break;
+            }
+        }
+        match replay_path {
+            Some(rp) => println!("VIOLATION property={} replay={}", p.id(), rp.display()),
+            None => println!("VIOLATION property={} replay={}", p.id(), violation.as_ref().and_then(|v| v["replay"].as_str()).unwrap_or("<missing>")),
+        }
+        return 1;
+    }
+    if codes.iter().any(|c| *c != 0) {
+        for o in outputs.iter() {
+            for l in o.lines().filter(|l| l.starts_with("INCONCLUSIVE") || l.starts_with("INFRA")) {
+                println!("{}", l);
+            }
+        }
+        return 2;
+    }
+    0
+}
+
 pub fn run_prop<P: Prop>(p: P, opts: RunOpts) -> i32 {
     let t0 = Instant::now();
+    let child = child_spec();
+    if p.processes() > 1 && child.is_none() && std::env::var("VERIF_NO_PROCESSES").is_err() {
+        if let Err(e) = p.self_test() {
+            eprintln!("INFRA: oracle self-test failed for {}: {}", p.id(), e);
+            return 2;
+        }
+        let n = p.processes();
+        return run_parent(&p, &opts, n);
+    }
+    let mut opts = opts;
+    let user_seed = opts.seed;
+    if let Some((k, _)) = child {
+        opts.seed = mix(&[user_seed, 0xC41D, k as u64]);
+    }
     let p = Arc::new(p);
     if let Err(e) = p.self_test() {
         eprintln!("INFRA: oracle self-test failed for {}: {}", p.id(), e);
@@ -438,7 +653,13 @@ pub fn run_prop<P: Prop>(p: P, opts: RunOpts) -> i32 {
     }
     let known = Arc::new(load_known(p.id()));
     let nshards = p.shards();
-    let total_cases = p.cases(opts.tier);
+    let total_cases = match child {
+        Some((k, n)) => {
+            let t = p.cases(opts.tier);
+            t / n as u64 + if (k as u64) < t % n as u64 { 1 } else { 0 }
+        }
+        None => p.cases(opts.tier),
+    };
     let slots: Arc<Vec<Slot<P::Case>>> = Arc::new((0..nshards).map(|_| Mutex::new(None)).collect());
     let done = Arc::new(AtomicBool::new(false));
 
@@ -509,7 +730,8 @@ pub fn run_prop<P: Prop>(p: P, opts: RunOpts) -> i32 {
     let mut regress_failure: Option<(P::Case, Failure, PathBuf)> = None;
     {
         let dir = verif_dir().join("regressions").join(p.id());
-        let mut files: Vec<PathBuf> = std::fs::read_dir(&dir).map(|d| d.flatten().map(|e| e.path()).collect()).unwrap_or_default();
+        let skip_regress = matches!(child, Some((k, _)) if k != 0);
+        let mut files: Vec<PathBuf> = if skip_regress { Vec::new() } else { std::fs::read_dir(&dir).map(|d| d.flatten().map(|e| e.path()).collect()).unwrap_or_default() };
         files.sort();
         for f in files {
             if f.extension().map_or(true, |e| e != "json") {
@@ -618,10 +840,13 @@ pub fn run_prop<P: Prop>(p: P, opts: RunOpts) -> i32 {
     if let Some((case, f)) = &violation {
         coverage["violation"] = json!({"case": case, "failure": f, "replay": replay_path.as_ref().map(|p| p.display().to_string())});
     }
+    if child.is_some() {
+        coverage["nt_hashes"] = json!(total.nt_set.iter().copied().collect::<Vec<u64>>());
+    }
     let ev = json!({
         "property_id": p.id(),
         "tier": opts.tier.name(),
-        "seed": opts.seed,
+        "seed": user_seed,
         "level": "exploration",
         "coverage": coverage,
         "assumptions": p.assumptions(),
